@@ -1,7 +1,7 @@
-\* quick 1: every reward 0..300 and fee sample x allocation grid (47 pairs) x {no delegators, 33/33/34}, then the block reward
+\* quick 1: every reward 0..300 and fee sample x allocation grid (12 values, pairs with sum <= 100) x {no delegators, 33/33/34}, then the block reward
 CONSTANTS
   Rewards <- MCRewards  TxFees <- MCTxFees  AllocPairs <- MCAllocPairs  ShareMaps <- MCShareMaps
-  MaxReward = 300  ExtraRewards = {}  FeeSet = {1, 2, 3, 7, 10, 11, 33, 99, 100, 101, 299, 300}
+  MaxReward = 300  ExtraRewards = {0}  FeeSet = {1, 2, 3, 7, 10, 11, 33, 99, 100, 101, 299, 300}
   Costs = {0}  PayerInit = 1000  Linear = TRUE  MaxOps = 2  RecordHist = TRUE
   AllocGrid = {0, 1, 2, 3, 10, 11, 33, 50, 67, 89, 99, 100}  AllocFixed = {}
   ShareGrid = {}  MapFixed <- Maps_NoneAndThirds  MaxDelegators = 3  SimDepth = 0
